@@ -197,6 +197,13 @@ pub struct Scn {
     pub triggering: bool,
     /// scripted readiness answers of the innermost service (0 ready, 1 pending, 2 error)
     pub ready_script: Vec<u8>,
+    /// bulkhead with one slot and unbounded waiting, rate limiter with one permit per 5ms and a
+    /// long timeout: requests queue inside the layer but none is rejected
+    #[serde(default)]
+    pub pressure: bool,
+    /// retry / reconnect back off for zero time
+    #[serde(default)]
+    pub zero_backoff: bool,
     /// per request: (start_ms, outcome script for the inner calls of that request)
     pub reqs: Vec<(u64, Vec<Behaviour>)>,
     pub knobs: SchedKnobs,
@@ -245,7 +252,9 @@ pub fn gen(rng: &mut Rng) -> Scn {
     };
     let mut knobs = SchedKnobs::gen(rng, false, 50);
     knobs.jumps.clear();
-    Scn { stack, mode, triggering, ready_script, reqs, knobs }
+    let pressure = rng.chance(1, 3) && stack.iter().any(|l| matches!(l, L::Bulkhead | L::RateLimiter));
+    let zero_backoff = triggering && rng.chance(1, 3);
+    Scn { stack, mode, triggering, ready_script, pressure, zero_backoff, reqs, knobs }
 }
 
 pub fn valid(s: &Scn) -> bool {
@@ -279,13 +288,14 @@ fn lst(layer: i64, ev: i64, panic_first: bool, second: bool) {
 
 /// Wraps `inner` with one real layer in its (non-)triggering configuration and maps the layer's
 /// error type into `UErr`.
-fn wrap(kind: L, pos: i64, trig: bool, listeners: u8, inner: Bx) -> Bx {
+fn wrap(kind: L, pos: i64, trig: bool, pressure: bool, zero_backoff: bool, listeners: u8, inner: Bx) -> Bx {
+    let backoff = Duration::from_millis(if zero_backoff { 0 } else { 1 });
     let pf = listeners == 2;
     let want_l = listeners > 0;
     match kind {
         L::Bulkhead => {
             use tower_resilience_bulkhead::{BulkheadError, BulkheadLayer, BulkheadServiceError};
-            let mut b = BulkheadLayer::builder().max_concurrent_calls(64);
+            let mut b = BulkheadLayer::builder().max_concurrent_calls(if pressure { 1 } else { 64 });
             if want_l {
                 b = b
                     .on_call_permitted(move |_| lst(pos, 1, pf, false))
@@ -303,7 +313,11 @@ fn wrap(kind: L, pos: i64, trig: bool, listeners: u8, inner: Bx) -> Bx {
         }
         L::RateLimiter => {
             use tower_resilience_ratelimiter::{RateLimiterLayer, RateLimiterServiceError};
-            let mut b = RateLimiterLayer::builder().limit_for_period(10_000).refresh_period(Duration::from_secs(1)).timeout_duration(Duration::from_millis(0));
+            let mut b = if pressure {
+                RateLimiterLayer::builder().limit_for_period(1).refresh_period(Duration::from_millis(5)).timeout_duration(Duration::from_secs(10))
+            } else {
+                RateLimiterLayer::builder().limit_for_period(10_000).refresh_period(Duration::from_secs(1)).timeout_duration(Duration::from_millis(0))
+            };
             if want_l {
                 b = b.on_permit_acquired(move |_| lst(pos, 1, pf, false)).on_permit_acquired(move |_| lst(pos, 1, pf, true));
             }
@@ -339,7 +353,7 @@ fn wrap(kind: L, pos: i64, trig: bool, listeners: u8, inner: Bx) -> Bx {
         }
         L::Retry => {
             use tower_resilience_retry::RetryLayer;
-            let mut b = RetryLayer::<Req, UErr>::builder().max_attempts(3).fixed_backoff(Duration::from_millis(1));
+            let mut b = RetryLayer::<Req, UErr>::builder().max_attempts(3).fixed_backoff(backoff);
             b = if trig { b.retry_on(|e: &UErr| e.inner.as_ref().map(|x| x.kind == 0).unwrap_or(false)) } else { b.retry_on(|_: &UErr| false) };
             if want_l {
                 b = b
@@ -404,7 +418,7 @@ fn wrap(kind: L, pos: i64, trig: bool, listeners: u8, inner: Bx) -> Bx {
         }
         L::Reconnect => {
             use tower_resilience_reconnect::{ReconnectConfig, ReconnectLayer, ReconnectPolicy};
-            let mut b = ReconnectConfig::builder().policy(ReconnectPolicy::fixed(Duration::from_millis(1))).max_attempts(3);
+            let mut b = ReconnectConfig::builder().policy(ReconnectPolicy::fixed(backoff)).max_attempts(3);
             b = if trig { b.reconnect_predicate(|e: &dyn std::error::Error| e.to_string().contains("kind0")) } else { b.reconnect_predicate(|_: &dyn std::error::Error| false) };
             // the predicate sees the error through Display: give UErr a recognisable rendering
             let svc = ReconnectLayer::new(b.build()).layer(inner.map_err(|u: UErr| RErr(u)));
@@ -513,7 +527,7 @@ fn run_once(s: &Scn, chooser: &mut Chooser, rt_seed: u64, listeners: u8) -> SimO
             if k > 0 {
                 svc = BoxCloneService::new(Probe { inner: svc, pos, ready: false });
             }
-            svc = wrap(*kind, pos, scn.triggering, listeners, svc);
+            svc = wrap(*kind, pos, scn.triggering, scn.pressure, scn.zero_backoff, listeners, svc);
         }
         let mut defs = vec![];
         for (i, (start, _)) in scn.reqs.iter().enumerate() {
@@ -745,6 +759,12 @@ pub fn run(s: &Scn, ctx: &mut RunCtx) -> RunOutput {
     if s.triggering {
         *probes.entry("retrying_or_hedging_configuration").or_insert(0) += 1;
     }
+    if s.pressure {
+        *probes.entry("queueing_inside_bulkhead_or_ratelimiter").or_insert(0) += 1;
+    }
+    if s.zero_backoff {
+        *probes.entry("zero_backoff").or_insert(0) += 1;
+    }
     RunOutput {
         violations: vio,
         faults,
@@ -782,7 +802,7 @@ impl Prop for C20 {
     fn runs(&self, t: Tier) -> u64 {
         match t {
             Tier::Quick => 20_000,
-            Tier::Thorough => 600_000,
+            Tier::Thorough => 5_000_000,
         }
     }
     fn nontrivial_rule(&self) -> &'static str {
